@@ -171,6 +171,11 @@ func (g *SGraph) inPkg(f *ssa.Function) bool { return f != nil && f.Pkg == g.Pkg
 // unprotectedPath searches a path from root to sink that passes no protector (root
 // included). It returns the path as function names, or nil.
 func (g *SGraph) unprotectedPath(root, sink *ssa.Function, skipGo bool) []string {
+	return g.unprotectedPathCut(root, sink, skipGo, nil)
+}
+
+// unprotectedPathCut is unprotectedPath that does not walk through the functions named in cuts.
+func (g *SGraph) unprotectedPathCut(root, sink *ssa.Function, skipGo bool, cuts map[string]string) []string {
 	type item struct {
 		f    *ssa.Function
 		prev *item
@@ -195,6 +200,9 @@ func (g *SGraph) unprotectedPath(root, sink *ssa.Function, skipGo bool) []string
 				continue
 			}
 			if skipGo && e.Kind == "go" {
+				continue
+			}
+			if cuts != nil && cuts[ssaFuncName(e.To)] != "" {
 				continue
 			}
 			if e.Kind == "defer" && e.To != sink {
@@ -262,4 +270,26 @@ func ssaMethod(sp *ssa.Package, typ, name string) *ssa.Function {
 		}
 	}
 	return nil
+}
+
+// reachesCut reports whether sink is reachable from root (go edges skipped) without walking
+// through the functions named in cuts.
+func (g *SGraph) reachesCut(root, sink *ssa.Function, cuts map[string]string) bool {
+	seen := map[*ssa.Function]bool{root: true}
+	q := []*ssa.Function{root}
+	for len(q) > 0 {
+		f := q[0]
+		q = q[1:]
+		if f == sink {
+			return true
+		}
+		for _, e := range g.Out[f] {
+			if !g.inPkg(e.To) || seen[e.To] || e.Kind == "go" || cuts[ssaFuncName(e.To)] != "" {
+				continue
+			}
+			seen[e.To] = true
+			q = append(q, e.To)
+		}
+	}
+	return false
 }
